@@ -441,53 +441,61 @@ Definition ext_path (p : list part) (i : option nat) : list part :=
 Definition is_scalar (v : json) : bool :=
   match v with JBool _ | JInt _ | JDbl _ | JStr _ => true | _ => false end.
 
+(* one value (array member or the property's single value) of property e / definition d;
+   rec = the facts of a nested node *)
+Definition item_facts (rec : ctx -> ctx -> members -> list string -> list part -> res (list fact))
+  (ld : loader) (G4 : ctx) (d : option tdef) (dp' : list string) (p' : list part) (x : json) : res (list fact) :=
+  match x with
+  | JNull => Ok []
+  | JArr _ => Err "subset:nested-array"
+  | JObj m' =>
+      cc <- enter_node ld G4 (match d with Some d' => td_ctx d' | None => None end) m' ;;
+      sub <- rec (fst cc) (snd cc) m' dp' p' ;;
+      (* an IRI-identified node is also an IRI-valued statement of its parent *)
+      match find (fun k' => String.eqb (expand_doc (snd cc) true k') "@id") (jkeys m') with
+      | Some ik => match jget ik m' with
+                   | Some (JStr s) => Ok ({| f_doc := dp'; f_path := p'; f_dt := "";
+                                             f_val := JStr (expand_doc (snd cc) false s) |} :: sub)
+                   | _ => Ok sub
+                   end
+      | None => Ok sub
+      end
+  | sv => scalar_fact G4 d dp' p' sv
+  end.
+
+Definition items_of (v : json) : list (option nat * json) :=
+  match v with JArr l => indexed l | _ => [(None, v)] end.
+
+(* one member (k, v) of a node object *)
+Definition member_facts (rec : ctx -> ctx -> members -> list string -> list part -> res (list fact))
+  (ld : loader) (G3 G4 : ctx) (dp : list string) (p : list part) (kv : string * json) : res (list fact) :=
+  let k := fst kv in
+  let v := snd kv in
+  if String.eqb k "@context" then Ok []
+  else
+    let e := expand_doc G4 true k in
+    if String.eqb e "@id" then
+      match v with JStr _ => Ok [] | _ => Err "invalid-id-value" end
+    else if String.eqb e "@type" then
+      tys <- type_values v ;;
+      Ok (map (fun it : option nat * string =>
+             {| f_doc := ext_doc (dp ++ [k]) (fst it);
+                f_path := ext_path (p ++ [PStr rdf_type]) (fst it);
+                f_dt := ""; f_val := JStr (expand_doc G3 true (snd it)) |}) (indexed tys))
+    else if is_keyword e then Err "subset:keyword"
+    else if String.eqb e "" || negb (has_colon e) then Err "undefined-property"   (* safe mode *)
+    else
+      concat_res (map (fun it : option nat * json =>
+          item_facts rec ld G4 (term_def G4 k) (ext_doc (dp ++ [k]) (fst it)) (ext_path (p ++ [PStr e]) (fst it)) (snd it))
+        (items_of v)).
+
 (* facts of the node object m (active context G4, type-scoped context G3) reached
    under expanded path p / document path dp.  Fuel bounds the nesting depth. *)
 Fixpoint node_facts (n : nat) (ld : loader) (G3 G4 : ctx) (m : members) (dp : list string) (p : list part)
   : res (list fact) :=
   match n with
   | O => Diverge
-  | S n' =>
-    concat_res (map (fun kv : string * json =>
-      let '(k, v) := kv in
-      if String.eqb k "@context" then Ok []
-      else
-        let e := expand_doc G4 true k in
-        if String.eqb e "@id" then
-          match v with JStr _ => Ok [] | _ => Err "invalid-id-value" end
-        else if String.eqb e "@type" then
-          tys <- type_values v ;;
-          Ok (map (fun it : option nat * string =>
-                 {| f_doc := ext_doc (dp ++ [k]) (fst it);
-                    f_path := ext_path (p ++ [PStr rdf_type]) (fst it);
-                    f_dt := ""; f_val := JStr (expand_doc G3 true (snd it)) |}) (indexed tys))
-        else if is_keyword e then Err "subset:keyword"
-        else if String.eqb e "" || negb (has_colon e) then Err "undefined-property"   (* safe mode *)
-        else
-          let d := term_def G4 k in
-          let items := match v with JArr l => indexed l | _ => [(None, v)] end in
-          concat_res (map (fun it : option nat * json =>
-            let dp' := ext_doc (dp ++ [k]) (fst it) in
-            let p' := ext_path (p ++ [PStr e]) (fst it) in
-            match snd it with
-            | JNull => Ok []
-            | JArr _ => Err "subset:nested-array"
-            | JObj m' =>
-                cc <- enter_node ld G4 (match d with Some d' => td_ctx d' | None => None end) m' ;;
-                let '(G3', G4') := cc in
-                sub <- node_facts n' ld G3' G4' m' dp' p' ;;
-                (* an IRI-identified node is also an IRI-valued statement of its parent *)
-                match find (fun k' => String.eqb (expand_doc G4' true k') "@id") (jkeys m') with
-                | Some ik => match jget ik m' with
-                             | Some (JStr s) => Ok ({| f_doc := dp'; f_path := p'; f_dt := "";
-                                                       f_val := JStr (expand_doc G4' false s) |} :: sub)
-                             | _ => Ok sub
-                             end
-                | None => Ok sub
-                end
-            | sv => scalar_fact G4 d dp' p' sv
-            end) items)
-    ) m)
+  | S n' => concat_res (map (member_facts (node_facts n' ld) ld G3 G4 dp p) m)
   end.
 
 Definition facts_fuel : nat := 12.
